@@ -280,6 +280,25 @@ func propC13(o *out, r *rng, thorough bool) {
 	for _, s := range loadCorpus("statements.json") {
 		c13One(o, s, "corpus")
 	}
+	// literal cells: every arithmetic / bitwise / comparison operator over boundary literal spellings of every kind
+	lits := []string{"0", "1", "-1", "7", "9223372036854775807", "-9223372036854775808", "9223372036854775808", "18446744073709551615", "0.0", "1.5", "-0.5", "0s", "10s", "-3s", "true", "'a'", "'2000-01-01T00:00:00Z'", "now()", "v", "(5 - 5)"}
+	for _, op := range []string{"+", "-", "*", "/", "%", "&", "|", "^", "=", "!=", "<", "<=", ">", ">=", "AND", "OR"} {
+		for _, a := range lits {
+			for _, b := range lits {
+				c13One(o, fmt.Sprintf("SELECT v FROM m WHERE x = %s %s %s", a, op, b), "literal-cell")
+			}
+		}
+	}
+	// call shapes: nesting, zero and surplus arguments, wildcards and regexes as arguments, next to wildcard fields and dimensions
+	for _, outer := range []string{"mean", "count", "top", "derivative", "moving_average", "unknown_fn", "distinct", "percentile"} {
+		for _, inner := range []string{"", "count()", "count(*)", "count(/re/)", "count(v)", "count(v, 1)", "*", "/re/", "v", "v, 2", "v, host, 3", "count(distinct())", "mean(mean())"} {
+			for _, extra := range []string{"", ", *", ", /re/", ", *::tag", ", v"} {
+				for _, gb := range []string{"", " GROUP BY *", " GROUP BY /re/", " GROUP BY time(1m), host"} {
+					c13One(o, fmt.Sprintf("SELECT %s(%s)%s FROM m%s", outer, inner, extra, gb), "call-shape")
+				}
+			}
+		}
+	}
 	n := 40
 	if thorough {
 		n = 4000
